@@ -124,13 +124,18 @@ Definition typed_entries (fs : list field) : list field :=
                      else []) fs.
 
 (* ---------- filters (Redefine) ---------- *)
-Inductive flt := FltType (t : ty) | FltOr (fs : list flt) | FltAnd (fs : list flt).
-Fixpoint flt_ok (u : universe) (f : flt) (t : ty) : bool :=
+Inductive flt := FltType (t : ty) | FltOr (fs : list flt) | FltAnd (fs : list flt)
+                | FltName (n : string) | FltSub (s : string).
+(* a FilterFunc sees the whole Value: name, type, subtype *)
+Fixpoint flt_okv (u : universe) (f : flt) (n : string) (t : ty) (s : string) : bool :=
   match f with
   | FltType t0 => (t =? t0) || implements u t t0
-  | FltOr fs => existsb (fun g => flt_ok u g t) fs
-  | FltAnd fs => forallb (fun g => flt_ok u g t) fs
+  | FltOr fs => existsb (fun g => flt_okv u g n t s) fs
+  | FltAnd fs => forallb (fun g => flt_okv u g n t s) fs
+  | FltName n0 => String.eqb n n0
+  | FltSub s0 => String.eqb s s0
   end.
+Definition flt_ok (u : universe) (f : flt) (t : ty) : bool := flt_okv u f EmptyString t EmptyString.
 
 (* ---------- converter generators ----------
    A generator is a finite table from labels to what it returns. *)
